@@ -80,6 +80,9 @@ func (e *Exec) instr(f *frame, st *State, ins ssa.Instruction) bool {
 		a := e.fieldAddr(v.T, pt.Elem(), x.Field)
 		if a.Sub != "" {
 			e.bind(f, x, Val{T: a.Sub, Ty: tyOfGo(x.Type())})
+			if nv := f.vals[x].T; nv != a.Sub {
+				e.subAlias[nv] = a.Sub
+			}
 		} else {
 			f.vals[x] = Val{Ty: tyOfGo(x.Type()), Addr: a}
 		}
